@@ -124,8 +124,14 @@ Resumed ==
      IN Report(e, bad)
   /\ l' = l + 1 /\ UNCHANGED <<vers, started, finished, lo, hi, seen>>
 
+\* the uninterrupted run of a kill history (or one of its recoveries) panicked inside arroy: there is no version to compare
+Failed ==
+  /\ IsEv("C.Failed")
+  /\ Report(Rec[l], {<<"C09", "run_panicked_in_the_library">>, <<"C08", "run_panicked_in_the_library">>})
+  /\ l' = l + 1 /\ UNCHANGED <<vers, started, finished, lo, hi, seen>>
+
 TraceInit == l = 1 /\ vers = <<>> /\ started = {} /\ finished = {} /\ lo = <<>> /\ hi = <<>> /\ seen = <<>>
-TraceNext == Reset \/ CommitCall \/ CommitReturn \/ WAbort \/ BeginCall \/ BeginReturn \/ Observe \/ REnd \/ Version \/ Recovered \/ Resumed
+TraceNext == Reset \/ CommitCall \/ CommitReturn \/ WAbort \/ BeginCall \/ BeginReturn \/ Observe \/ REnd \/ Version \/ Recovered \/ Resumed \/ Failed
 TraceSpec == TraceInit /\ [][TraceNext]_tvars
 TraceAccepted ==
   LET d == TLCGet("stats").diameter IN
